@@ -36,6 +36,9 @@ struct Cand {
     valid: bool,
     /// expected pool verdict at tip n-1 (None: pool policy / conservative env may differ)
     pool: Option<bool>,
+    /// transactions placed before `tx` in the probe block (and submitted to the pool before
+    /// `tx` is offered); `valid` then speaks about the block [cellbase, pre.., tx]
+    pre: Vec<TransactionView>,
 }
 
 fn key_of(op: &OutPoint) -> (H, u32) {
@@ -91,7 +94,7 @@ fn params_for(i: u64) -> ChainParams {
     // cellbase maturity: one epoch
     p.maturity = (1, 0, 1);
     p.median_time_block_count = Some(5);
-    p.issued_cells = 60;
+    p.issued_cells = 90;
     p
 }
 
@@ -167,7 +170,7 @@ fn setup(ci: u64, rng: &mut Rng) -> Option<Setup> {
     }
     tg.keep.insert((h(&s2.hash()), 0));
     tg.keep.insert(key_of(&gi.dev1_out_point));
-    for (k, _) in issued.iter().skip(2).take(36) {
+    for (k, _) in issued.iter().skip(2).take(80) {
         tg.keep.insert(*k);
     }
     // propose both and grow the chain with a fork until they are committed
@@ -195,6 +198,28 @@ fn setup(ci: u64, rng: &mut Rng) -> Option<Setup> {
             continue;
         }
         tip = tg.extend(&tip);
+    }
+    // a three-block side branch that proposes and commits a transaction the main chain never
+    // sees; the main chain is then re-grown from the fork point and made longer
+    let side_key = issued[38].0;
+    let side_tx = builder::build_tx(&gi, &[(out_point(&side_key), 0)], &[mk_out(cap_of(&issued[38].1) - FEE, builder::lock_with_args(&gi, &[7]), vec![0x51, 0xDE])], &[], &[], None);
+    let mut side_tip: Option<H> = None;
+    {
+        let a = tip;
+        let s1 = tg.extend_ex(&a, &[side_tx.clone()]);
+        let s2 = tg.extend(&s1);
+        let s3 = tg.extend(&s2);
+        let s4 = tg.extend(&s3);
+        if tg.rc.replay(&s4).tx_info.contains_key(&h(&side_tx.hash())) {
+            side_tip = Some(s4);
+        }
+        tip = tg.extend(&a);
+        for _ in 0..5 {
+            tip = tg.extend(&tip);
+        }
+        if tg.rc.replay(&tip).tx_info.contains_key(&h(&side_tx.hash())) {
+            return None;
+        }
     }
     // ---- context P0: candidates reference the state here; commit position n = P0 + w_close + 1
     let p0 = tip;
@@ -224,8 +249,8 @@ fn setup(ci: u64, rng: &mut Rng) -> Option<Setup> {
         .map(|(k, c)| (*k, c.clone()))
         .collect();
     plain.sort_by_key(|(_, c)| c.block_number);
-    let genesis_plain: Vec<((H, u32), CellRec)> = st.cells.iter().filter(|(k, c)| c.block_number == 0 && issued.iter().any(|(ik, _)| ik == *k)).map(|(k, c)| (*k, c.clone())).collect();
-    if genesis_plain.len() < 30 {
+    let genesis_plain: Vec<((H, u32), CellRec)> = st.cells.iter().filter(|(k, c)| c.block_number == 0 && **k != side_key && issued.iter().any(|(ik, _)| ik == *k)).map(|(k, c)| (*k, c.clone())).collect();
+    if genesis_plain.len() < 44 {
         return None;
     }
     let mut gi_iter = genesis_plain.into_iter();
@@ -240,7 +265,8 @@ fn setup(ci: u64, rng: &mut Rng) -> Option<Setup> {
         builder::build_tx(&gi, &[input], &[builder::OutSpec { capacity: in_cap - fee, lock: lock7.clone(), type_: None, data }], deps, hdeps, None)
     };
     let mut cands: Vec<Cand> = vec![];
-    let mut add = |name: &'static str, tx: TransactionView, valid: bool, pool: Option<bool>| cands.push(Cand { name, tx, valid, pool });
+    let mut later_pairs: Vec<Cand> = vec![];
+    let mut add = |name: &'static str, tx: TransactionView, valid: bool, pool: Option<bool>| cands.push(Cand { name, tx, valid, pool, pre: vec![] });
 
     // -- resolution
     let (k, c) = next_cell()?;
@@ -258,9 +284,11 @@ fn setup(ci: u64, rng: &mut Rng) -> Option<Setup> {
     // input created only on a side branch
     {
         let main: HashSet<H> = st.chain.iter().cloned().collect();
-        let side_out = tg.order.iter().filter(|x| !main.contains(*x)).flat_map(|x| tg.rc.get(x).block.transactions().into_iter().skip(1)).find(|t| !st.tx_info.contains_key(&h(&t.hash()))).map(|t| OutPoint::new(t.hash(), 0));
-        if let Some(op) = side_out {
-            add("resolve.input_only_on_side_branch", simple((op, 0), 500_0000_0000, FEE, &[], &[]), false, Some(false));
+        let _ = &main;
+        if side_tip.is_some() {
+            add("resolve.input_only_on_side_branch", simple((OutPoint::new(side_tx.hash(), 0), 0), cap_of(&issued[38].1) - FEE, FEE, &[], &[]), false, Some(false));
+            // the cell the side branch spent is still live on the main chain
+            add("valid.input_spent_only_on_side_branch", simple((out_point(&side_key), 0), cap_of(&issued[38].1), FEE, &[], &[]), true, Some(true));
         }
     }
     {
@@ -291,7 +319,7 @@ fn setup(ci: u64, rng: &mut Rng) -> Option<Setup> {
         let (k, c) = next_cell()?;
         add("resolve.header_dep_unknown", simple((out_point(&k), 0), cap_of(&c), FEE, &[], &[packed::Byte32::from_slice(&rng.bytes(32)).unwrap()]), false, Some(false));
         let main: HashSet<H> = st.chain.iter().cloned().collect();
-        if let Some(sb) = tg.order.iter().find(|x| !main.contains(*x)) {
+        if let Some(sb) = side_tip.as_ref().or_else(|| tg.order.iter().find(|x| !main.contains(*x))) {
             let (k, c) = next_cell()?;
             add("resolve.header_dep_on_side_branch", simple((out_point(&k), 0), cap_of(&c), FEE, &[], &[packed::Byte32::from_slice(sb).unwrap()]), false, Some(false));
         }
@@ -362,6 +390,49 @@ fn setup(ci: u64, rng: &mut Rng) -> Option<Setup> {
             add("script.secp256k1_corrupted_signature", bad, false, Some(false));
         }
     }
+    // -- several transactions in one block: order, double spends and deps across transactions
+    {
+        let spend = |op: OutPoint, cap: u64, deps: &[CellDep], tag: u8| builder::build_tx(&gi, &[(op, 0)], &[builder::OutSpec { capacity: cap - FEE, lock: lock7.clone(), type_: None, data: vec![0xAB, tag, ci as u8] }], deps, &[], None);
+        let dep_of = |op: OutPoint| CellDep::new_builder().out_point(op).build();
+        // B spends an output of A, A earlier in the block
+        let (k, c) = next_cell()?;
+        let a = spend(out_point(&k), cap_of(&c), &[], 1);
+        let b = spend(OutPoint::new(a.hash(), 0), cap_of(&c) - FEE, &[], 2);
+        later_pairs.push(Cand { name: "valid.spends_output_of_earlier_tx_in_block", tx: b, valid: true, pool: Some(true), pre: vec![a] });
+        // ... and A later in the block
+        let (k, c) = next_cell()?;
+        let a = spend(out_point(&k), cap_of(&c), &[], 3);
+        let b = spend(OutPoint::new(a.hash(), 0), cap_of(&c) - FEE, &[], 4);
+        later_pairs.push(Cand { name: "resolve.spends_output_of_later_tx_in_block", tx: a, valid: false, pool: None, pre: vec![b] });
+        // two transactions spending the same cell
+        let (k, c) = next_cell()?;
+        let x1 = spend(out_point(&k), cap_of(&c), &[], 5);
+        let x2 = spend(out_point(&k), cap_of(&c), &[], 6);
+        later_pairs.push(Cand { name: "resolve.double_spend_across_txs_in_block", tx: x2, valid: false, pool: None, pre: vec![x1] });
+        // cell dep on a cell spent earlier in the block
+        let (k, c) = next_cell()?;
+        let (k2, c2) = next_cell()?;
+        let y1 = spend(out_point(&k), cap_of(&c), &[], 7);
+        let y2 = spend(out_point(&k2), cap_of(&c2), &[dep_of(out_point(&k))], 8);
+        later_pairs.push(Cand { name: "resolve.cell_dep_spent_earlier_in_block", tx: y2, valid: false, pool: None, pre: vec![y1] });
+        // cell dep on a cell spent LATER in the block: fine
+        let (k, c) = next_cell()?;
+        let (k2, c2) = next_cell()?;
+        let y1 = spend(out_point(&k), cap_of(&c), &[], 9);
+        let y2 = spend(out_point(&k2), cap_of(&c2), &[dep_of(out_point(&k))], 10);
+        later_pairs.push(Cand { name: "valid.cell_dep_spent_later_in_block", tx: y1, valid: true, pool: None, pre: vec![y2] });
+        // cell dep on an output of an earlier transaction of the block
+        let (k, c) = next_cell()?;
+        let (k2, c2) = next_cell()?;
+        let z1 = spend(out_point(&k), cap_of(&c), &[], 11);
+        let z2 = spend(out_point(&k2), cap_of(&c2), &[dep_of(OutPoint::new(z1.hash(), 0))], 12);
+        later_pairs.push(Cand { name: "valid.cell_dep_on_output_of_earlier_tx_in_block", tx: z2, valid: true, pool: Some(true), pre: vec![z1] });
+        // dep group with a member spent earlier in the block
+        let (k2, c2) = next_cell()?;
+        let w1 = spend(victim.clone(), 200_0000_0000, &[], 13);
+        let w2 = spend(out_point(&k2), cap_of(&c2), &[CellDep::new_builder().out_point(OutPoint::new(s2.hash(), 0)).dep_type(DepType::DepGroup).build()], 14);
+        later_pairs.push(Cand { name: "resolve.dep_group_member_spent_earlier_in_block", tx: w2, valid: false, pool: None, pre: vec![w1] });
+    }
     // -- grow the chain: one block proposing every candidate, then w_close - 1 fillers
     let all: Vec<TransactionView> = cands.iter().map(|c| c.tx.clone()).collect();
     tg.cfg.max_new_txs = 0;
@@ -408,7 +479,7 @@ fn setup(ci: u64, rng: &mut Rng) -> Option<Setup> {
             data.extend_from_slice(&salt.to_le_bytes());
             data.extend_from_slice(&ci.to_le_bytes());
             let tx = builder::build_tx(&gi, &[(op.clone(), since)], &[builder::OutSpec { capacity: cap - FEE, lock: lock7.clone(), type_: None, data }], &[], &[], None);
-            later.push(Cand { name, tx, valid, pool });
+            later.push(Cand { name, tx, valid, pool, pre: vec![] });
         };
         mk("valid.since_abs_block_at_threshold", since_abs_block(n), true, Some(true));
         mk("since.abs_block_one_early", since_abs_block(n + 1), false, Some(false));
@@ -443,22 +514,23 @@ fn setup(ci: u64, rng: &mut Rng) -> Option<Setup> {
             if let Some((k, c)) = find_cb(n - epoch_len) {
                 if EpochNumberWithFraction::from_full_value(c.block_epoch).length() == epoch_len {
                     let tx = builder::build_tx(&gi, &[(out_point(&k), 0)], &[builder::OutSpec { capacity: cap_of(&c) - FEE, lock: lock7.clone(), type_: None, data: vec![0x3A, ci as u8] }], &[], &[], None);
-                    later.push(Cand { name: "valid.cellbase_exactly_mature", tx, valid: true, pool: None });
+                    later.push(Cand { name: "valid.cellbase_exactly_mature", tx, valid: true, pool: None, pre: vec![] });
                 }
             }
             if let Some((k, c)) = find_cb(n - epoch_len + 1) {
                 if EpochNumberWithFraction::from_full_value(c.block_epoch).length() == epoch_len {
                     let tx = builder::build_tx(&gi, &[(out_point(&k), 0)], &[builder::OutSpec { capacity: cap_of(&c) - FEE, lock: lock7.clone(), type_: None, data: vec![0x3B, ci as u8] }], &[], &[], None);
-                    later.push(Cand { name: "maturity.cellbase_one_block_early", tx, valid: false, pool: Some(false) });
+                    later.push(Cand { name: "maturity.cellbase_one_block_early", tx, valid: false, pool: Some(false), pre: vec![] });
                 }
             }
         }
     }
     cands.extend(later);
+    cands.extend(later_pairs);
     let all: Vec<TransactionView> = all.into_iter().chain(cands.iter().skip(all_len(&cands)).map(|c| c.tx.clone())).collect();
     let all: Vec<TransactionView> = {
         let mut seen = HashSet::new();
-        cands.iter().map(|c| c.tx.clone()).chain(all).filter(|t| seen.insert(t.hash())).collect()
+        cands.iter().flat_map(|c| c.pre.iter().cloned().chain(std::iter::once(c.tx.clone()))).chain(all).filter(|t| seen.insert(t.hash())).collect()
     };
     let mut cur = tg.extend_ex(&p0, &all);
     for _ in 1..w_close {
@@ -469,7 +541,7 @@ fn setup(ci: u64, rng: &mut Rng) -> Option<Setup> {
     }
     // nothing of the candidates may have been committed by the fillers
     let stn = tg.rc.replay(&cur);
-    if cands.iter().any(|c| stn.tx_info.contains_key(&h(&c.tx.hash()))) {
+    if cands.iter().any(|c| stn.tx_info.contains_key(&h(&c.tx.hash())) || c.pre.iter().any(|t| stn.tx_info.contains_key(&h(&t.hash())))) {
         return None;
     }
     Some(Setup { gi, tg, params, tip: cur, cands })
@@ -479,22 +551,23 @@ fn all_len(c: &[Cand]) -> usize {
     c.len()
 }
 
-/// Block containing only `tx` (plus cellbase) on top of the builder's tip.
-fn block_with(s: &Setup, tx: &TransactionView) -> BlockView {
+/// Block [cellbase, txs..] on top of the builder's tip. The flag tells whether the builder could
+/// resolve the transactions (then the dao field is the right one for this content); otherwise the
+/// dao field is the one of the empty block, which is only wrong once every transaction rule let
+/// the block pass — see `verdicts`.
+fn block_with(s: &Setup, txs: &[TransactionView]) -> (BlockView, bool) {
     // a fresh cellbase message per call: the same candidate is judged several times on the same
     // node and an already known block hash would not be processed again
     static SALT: std::sync::atomic::AtomicU64 = std::sync::atomic::AtomicU64::new(1);
     let salt = SALT.fetch_add(1, std::sync::atomic::Ordering::SeqCst);
-    let spec = BlockSpec { txs: vec![tx.clone()], timestamp: None, message: salt.to_le_bytes().to_vec(), ..Default::default() };
+    let spec = BlockSpec { txs: txs.to_vec(), timestamp: None, message: salt.to_le_bytes().to_vec(), ..Default::default() };
     match builder::try_build_block(&s.tg.b.shared, &s.gi, &spec) {
-        Ok(b) => b.block,
+        Ok(b) => (b.block, true),
         Err(_) => {
-            // unresolvable: take the empty block and put the tx in (dao is irrelevant: the
-            // block is refused at resolution)
             let empty = builder::build_block(&s.tg.b.shared, &s.gi, &BlockSpec { message: salt.to_le_bytes().to_vec(), ..Default::default() }).block;
-            let mut txs = empty.transactions();
-            txs.push(tx.clone());
-            builder::reseal(&s.gi.consensus, empty.as_advanced_builder().set_transactions(txs).build())
+            let mut all = empty.transactions();
+            all.extend(txs.iter().cloned());
+            (builder::reseal(&s.gi.consensus, empty.as_advanced_builder().set_transactions(all).build()), false)
         }
     }
 }
@@ -559,27 +632,51 @@ fn clear_verify_cache(node: &Node) {
     });
 }
 
-/// Verdict of a candidate on both paths. Leaves the node at the context tip.
-fn verdicts(s: &Setup, node: &Node, c: &Cand, clear_cache: bool) -> (Option<bool>, bool, Option<String>) {
+struct Verdict {
+    pool: Option<bool>,
+    accepted: bool,
+    ext: Option<String>,
+    /// the block was refused only by the dao check although the builder could not even resolve
+    /// its transactions: every transaction rule let an invalid transaction pass
+    passed_tx_rules: bool,
+}
+
+/// Verdict of a candidate on both paths. Leaves the node at the context tip with an empty pool.
+fn verdicts(s: &Setup, node: &Node, c: &Cand, clear_cache: bool) -> Verdict {
+    let debug = std::env::var("VERIF_DEBUG").is_ok();
     if clear_cache {
         clear_verify_cache(node);
     }
-    let pool_res = node.shared.tx_pool_controller().test_accept_tx(c.tx.clone()).ok();
-    if std::env::var("VERIF_DEBUG").is_ok() {
+    let tpc = node.shared.tx_pool_controller();
+    let mut pre_ok = true;
+    for t in &c.pre {
+        pre_ok &= matches!(tpc.submit_local_tx(t.clone()), Ok(Ok(_)));
+    }
+    let pool_res = tpc.test_accept_tx(c.tx.clone()).ok();
+    if debug {
         if let Some(Err(e)) = &pool_res {
             eprintln!("[tx] pool refuses {}: {}", c.name, e);
         }
     }
-    let pool = pool_res.map(|r| r.is_ok());
+    // the pool's answer about `tx` is only meaningful if the transactions before it were pooled
+    let pool = if pre_ok { pool_res.map(|r| r.is_ok()) } else { None };
+    if !c.pre.is_empty() {
+        let _ = tpc.clear_pool(node.shared.cloned_snapshot());
+    }
     if clear_cache {
         clear_verify_cache(node);
     }
-    let blk = block_with(s, &c.tx);
+    let mut txs = c.pre.clone();
+    txs.push(c.tx.clone());
+    let (blk, resolved) = block_with(s, &txs);
     let res = node.chain().blocking_process_block(Arc::new(blk.clone()));
-    if std::env::var("VERIF_DEBUG").is_ok() {
-        if let Err(e) = &res {
-            eprintln!("[tx] block refuses {}: {}", c.name, e);
+    let mut passed_tx_rules = false;
+    if let Err(e) = &res {
+        let msg = e.to_string();
+        if debug {
+            eprintln!("[tx] block refuses {}: {}", c.name, msg);
         }
+        passed_tx_rules = !resolved && (msg.contains("InvalidDAO") || msg.contains("Dao("));
     }
     let accepted = matches!(res, Ok(true)) && h(&node.tip_hash()) == h(&blk.hash());
     let ext = if accepted {
@@ -590,9 +687,9 @@ fn verdicts(s: &Setup, node: &Node, c: &Cand, clear_cache: bool) -> (Option<bool
     if h(&node.tip_hash()) != s.tip {
         let _ = node.chain().truncate(packed::Byte32::from_slice(&s.tip).unwrap());
         // the pool is not told about truncations: resynchronise it explicitly
-        let _ = node.shared.tx_pool_controller().clear_pool(node.shared.cloned_snapshot());
+        let _ = tpc.clear_pool(node.shared.cloned_snapshot());
     }
-    (pool, accepted, ext)
+    Verdict { pool, accepted, ext, passed_tx_rules }
 }
 
 pub fn run(args: &Args) -> i32 {
@@ -647,8 +744,16 @@ pub fn run(args: &Args) -> i32 {
         let mut vec1: BTreeMap<&'static str, (Option<bool>, bool)> = BTreeMap::new();
         for c in &s.cands {
             let wit = json!({"context": ci, "candidate": c.name, "tx": vbase::hex(c.tx.hash().as_slice()), "commit_position": s.tg.rc.get(&s.tip).number + 1, "epoch_of_tip": format!("{}", s.tg.rc.get(&s.tip).block.epoch())});
-            let (pool, accepted, ext1) = verdicts(&s, &n1, c, false);
+            let v1 = verdicts(&s, &n1, c, false);
+            let (pool, accepted, ext1) = (v1.pool, v1.accepted, v1.ext.clone());
             vec1.insert(c.name, (pool, accepted));
+            if v1.passed_tx_rules && !c.valid {
+                c04.violation(
+                    &format!("block_path.invalid_tx_passed_every_tx_rule@{}", c.name),
+                    format!("candidate `{}` is invalid by construction and the harness could not even resolve it, yet the node refused the block only because of its dao field (computed for the empty block): resolution and every transaction rule let it pass", c.name),
+                    wit.clone(),
+                );
+            }
             c04.eval();
             c04.count(&format!("candidates.{}", c.name));
             c04.distinct_str(&format!("{}|{}|block", c.name, class));
@@ -671,12 +776,13 @@ pub fn run(args: &Args) -> i32 {
                 }
             }
             // soundness in any case: what the pool accepts must be valid in a block at n
-            if pool == Some(true) && !c.valid {
+            if pool == Some(true) && !c.valid && c.pre.is_empty() {
                 c04.violation(&format!("pool_path.accepts_tx_invalid_in_next_block@{}", c.name), "pool accepted a transaction that is invalid at the earliest commit position".into(), wit.clone());
             }
             // history independence
             if let Some(n2) = &n2 {
-                let (p2, a2, _) = verdicts(&s, n2, c, false);
+                let v2 = verdicts(&s, n2, c, false);
+                let (p2, a2) = (v2.pool, v2.accepted);
                 c04.eval();
                 c04.count("history_independence_checks");
                 if (p2, a2) != (pool, accepted) {
@@ -685,7 +791,8 @@ pub fn run(args: &Args) -> i32 {
             }
             // C14: cold caches, verification cache cleared before every event
             if let Some(cold) = &cold {
-                let (p3, a3, ext3) = verdicts(&s, cold, c, true);
+                let v3 = verdicts(&s, cold, c, true);
+                let (p3, a3, ext3) = (v3.pool, v3.accepted, v3.ext);
                 c14.eval();
                 c14.count("events_compared");
                 c14.distinct_str(&format!("{}|cache{}", c.name, cache_cfg));
@@ -697,7 +804,8 @@ pub fn run(args: &Args) -> i32 {
                 }
                 // second pass on the WARM node: the verification cache is hot now (the tx has
                 // been verified by test_accept and by the block): verdict must not change
-                let (p1b, a1b, ext1b) = verdicts(&s, &n1, c, false);
+                let v1b = verdicts(&s, &n1, c, false);
+                let (p1b, a1b, ext1b) = (v1b.pool, v1b.accepted, v1b.ext);
                 c14.eval();
                 if (p1b, a1b) != (pool, accepted) || (accepted && ext1b != ext1) {
                     c14.violation(&format!("verdict_differs_on_cache_hit@{}", c.name), format!("first {:?} {:?}, repeated {:?} {:?}", (pool, accepted), ext1, (p1b, a1b), ext1b), wit.clone());
@@ -710,7 +818,7 @@ pub fn run(args: &Args) -> i32 {
             if let Some(bad) = bad {
                 // warm the cache with the valid one through the pool, then the bad twin in a block
                 let _ = n1.shared.tx_pool_controller().test_accept_tx(sc.tx.clone());
-                let (_, a, _) = verdicts(&s, &n1, bad, false);
+                let a = verdicts(&s, &n1, bad, false).accepted;
                 c14.eval();
                 c14.count("same_tx_hash_different_witness_events");
                 if a {
